@@ -31,6 +31,13 @@ def main():
     while os.path.exists(lock) and os.environ.get("VERIF_SEEDED") != "1" and waited < 3600:
         time.sleep(5)
         waited += 5
+    # marker of a check that is actually running (not merely waiting for the lock)
+    import atexit
+    rundir = os.path.join(os.path.dirname(lock), "running")
+    os.makedirs(rundir, exist_ok=True)
+    marker = os.path.join(rundir, str(os.getpid()))
+    open(marker, "w").write(pid)
+    atexit.register(lambda: os.path.exists(marker) and os.remove(marker))
     t0 = time.time()
     if args.replay:
         return P.replay(pid, args.replay)
